@@ -45,11 +45,14 @@ type ffFS struct {
 	inner FileSystem
 	armed bool
 	calls int
-	plan  map[int]int // call index -> kind
+	wcall int
+	plan  map[int]int // call index (or ffWriteBase + write index) -> kind
 	fired []string
 }
 
-func (f *ffFS) arm(plan map[int]int) { f.armed, f.calls, f.plan, f.fired = true, 0, plan, nil }
+func (f *ffFS) arm(plan map[int]int) { f.armed, f.calls, f.wcall, f.plan, f.fired = true, 0, 0, plan, nil }
+
+const ffWriteBase = 1000 // plan keys >= ffWriteBase address the n-th Write call
 func (f *ffFS) disarm()              { f.armed = false }
 
 // hit reports whether the current call must fail, and how.
@@ -60,6 +63,12 @@ func (f *ffFS) hit(op, name string, isWrite bool) (error, bool) {
 	i := f.calls
 	f.calls++
 	k, ok := f.plan[i]
+	if isWrite {
+		if kw, okw := f.plan[ffWriteBase+f.wcall]; okw && !ok {
+			k, ok = kw, true
+		}
+		f.wcall++
+	}
 	if !ok {
 		return nil, false
 	}
@@ -381,6 +390,7 @@ type cmSim struct {
 	locks  []cmLock
 	tr     *vs.Trace
 	lastEr error
+	stop   bool
 }
 
 var cmNames = []string{"a", "b", "c", "d e"}
@@ -472,6 +482,9 @@ func (s *cmSim) genDestination(c vs.Chooser, snap map[string]cmNode, src string)
 		if d := s.existing(snap, c, true); d != "" && vs.Bool(c) {
 			par = d
 		}
+		if wdUnder(par, srcClean) && !vs.Pct(c, 15) {
+			par = "/" // a COPY into an existing sub-collection of the source recurses to the limit (slow); keep it rare
+		}
 		t = path.Join(par, vs.Pick(c, "n", "m", "a", "b"))
 	case k < 9: // an existing resource
 		if t = s.existing(snap, c, false); t == "" {
@@ -480,8 +493,8 @@ func (s *cmSim) genDestination(c vs.Chooser, snap map[string]cmNode, src string)
 	case k < 12: // the source itself
 		t = srcClean
 	case k < 15: // inside the source
-		t = path.Join(srcClean, vs.Pick(c, "n", "a", "b", "c", "n/m"))
-		if vs.Pct(c, 30) {
+		t = path.Join(srcClean, vs.Pick(c, "n", "m", "n/m", "n", "m", "n", "m", "n", "a"))
+		if vs.Pct(c, 3) {
 			for _, p := range cmSorted(snap) {
 				if wdIsDesc(p, srcClean) {
 					t = p
@@ -555,8 +568,11 @@ func (s *cmSim) ifHeader(c vs.Chooser, client int) (string, string) {
 		return "?"
 	}
 	k := c.Intn(10)
+	if len(all) == 0 && !vs.Pct(c, 5) {
+		return "", ""
+	}
 	switch {
-	case k < 4 || len(all) == 0 && k < 9:
+	case k < 4:
 		return "", ""
 	case k < 9 && len(own) > 0:
 		var hs, ns []string
@@ -606,11 +622,11 @@ func (s *cmSim) request(rt *rapid.T, c vs.Chooser, client int, fault bool) (*vs.
 		r.Header.Set("Destination", hdr)
 		desc += fmt.Sprintf(" Destination=%q", hdr)
 	}
-	if ow := vs.Pick(c, "", "T", "F", "T", "F", "t", "x"); ow != "" {
+	if ow := vs.Pick(c, "", "T", "F", "T", "T", "F", "t", "x"); ow != "" {
 		r.Header.Set("Overwrite", ow)
 		desc += " Overwrite=" + ow
 	}
-	if d := vs.Pick(c, "", "", "infinity", "0", "1", "bogus"); d != "" {
+	if d := vs.Pick(c, "", "", "", "", "", "", "infinity", "infinity", "0", "0", "1", "bogus"); d != "" {
 		r.Header.Set("Depth", d)
 		desc += " Depth=" + d
 	}
@@ -621,7 +637,11 @@ func (s *cmSim) request(rt *rapid.T, c vs.Chooser, client int, fault bool) (*vs.
 	if fault {
 		plan := map[int]int{}
 		for i, n := 0, vs.Range(c, 1, 3); i < n; i++ {
-			plan[vs.SizeBiased(c, 60, 3, 8)] = c.Intn(4)
+			if vs.Pct(c, 15) {
+				plan[ffWriteBase+c.Intn(2)] = vs.Pick(c, ffShort, ffENOSPC, ffEIO)
+			} else {
+				plan[vs.Pick(c, 0, 1, 2, 3, 4, 5, 6, 7, 8, 10, 12, 16, 24)] = c.Intn(4)
+			}
 		}
 		s.ffs.arm(plan)
 	}
@@ -648,6 +668,7 @@ func (s *cmSim) request(rt *rapid.T, c vs.Chooser, client int, fault bool) (*vs.
 		}
 	}
 	rel := cmRelation(src, srcClean, dstRaw, dstClean, dstKnown)
+	vs.G.Inc(fmt.Sprintf("status.%s.%d", method, w.Code))
 	if existingSrc {
 		vs.G.Inc("probe." + rel)
 	}
@@ -664,6 +685,7 @@ func (s *cmSim) request(rt *rapid.T, c vs.Chooser, client int, fault bool) (*vs.
 	}
 	if s.lastEr == errRecursionTooDeep {
 		vs.G.Inc("probe.recursion_limit")
+		s.stop = true // the tree is now ~1000 levels deep; further snapshots are slow
 	}
 	if !dstKnown {
 		dstClean = "\x00" // matches nothing
@@ -694,12 +716,15 @@ func cmRun(rt *rapid.T) {
 	if err != nil {
 		vs.Harnessf(rt, "snapshot: %v", err)
 	}
-	for i, n := 0, vs.Pick(c, 0, 0, 1, 2); i < n; i++ {
+	for i, n := 0, vs.Pick(c, 0, 0, 0, 1, 1, 2); i < n; i++ {
 		root := s.existing(snap, c, false)
-		if root == "" || vs.Pct(c, 10) {
-			root = vs.Pick(c, "/", "/n", "/a/n")
+		if root == "" || vs.Pct(c, 35) {
+			root = vs.Pick(c, "/", "/n", "/", "/a/n")
 		}
 		l := cmLock{client: c.Intn(nclients), root: root, zero: vs.Bool(c)}
+		if root == "/" {
+			l.zero = false
+		}
 		tok, err := s.ls.Create(time.Now(), LockDetails{Root: root, Duration: infiniteTimeout, ZeroDepth: l.zero})
 		if err != nil {
 			continue
@@ -711,7 +736,7 @@ func cmRun(rt *rapid.T) {
 	var viol *vs.Violation
 	work, fired := 0, 0
 	nreq := vs.Range(c, 1, vs.Thorough(3, 6))
-	for i := 0; i < nreq && viol == nil; i++ {
+	for i := 0; i < nreq && viol == nil && !s.stop; i++ {
 		var real bool
 		viol, real = s.request(rt, c, c.Intn(nclients), fault)
 		if real {
